@@ -38,7 +38,7 @@ Definition spec_units (d : decl) : list (str * option str) :=      (* (unit, the
   let nested (outer : str) := join_dot [outer; s_init_args; s_sub] in
   match d_shape d with
   | ShG | ShS => [(n, None)]
-  | ShGI => []                 (* nothing is constructed *)
+  | ShGI | ShTI => []          (* nothing is constructed *)
   | ShSN => [(nested n, Some n); (n, None)]
   | ShSNN => [(nested (nested n), Some (nested n)); (nested n, Some n); (n, None)]
   | ShGN => [(join_dot [n; s_child], Some n); (n, None)]
